@@ -140,7 +140,7 @@ def _write(case, tab, d, name):
     elif c == 'kpickle':
         W.write_pickle_ktable(path, tab, name=name)
     elif c == 'kh5':
-        W.write_hdf5_ktable(path, tab, unit=case['unit'], name=name)
+        W.write_hdf5_ktable(path, tab, unit=case['unit'], name=name, kdtype=np.float32 if case.get('f32') else None)
     else:
         raise ValueError(c)
     return path
@@ -190,6 +190,10 @@ def xsec_case(case):
     isk = c.startswith('k')
     nP, nT = case['shape']
     tab = logical_table(nP, nT, case['nW'], case['pattern'], 'x', ng=case.get('ng', 0))
+    if case.get('f32'):
+        # the file stores single-precision coefficients: the table IS those numbers (the HDF5 readers hand them on in double
+        # precision, so what is served is compared at the usual tolerance)
+        tab = dict(tab, x=(np.asarray(tab['x'], float) * 1e4).astype(np.float32).astype(float) / 1e4)
     Tg, Pg, wn = tab['T'], tab['P'], np.array(tab['wn'])
     x_cm2 = tab['x'] * 1e4
     want_name = opacfmt.molecule_name(_fmt_of(c), case['fname'])
@@ -928,6 +932,12 @@ def explore(ctx):
                                                     ['cache', 'class']):
         cases.append({'container': 'kh5', 'shape': list(sh), 'nW': 4, 'ng': ng, 'pattern': 'generic', 'fname': fn,
                       'tag': tag, 'unit': unit, 'mem': mem, 'mode': mode, 'via': via, 'wn': 'none'})
+        if fn == FN_KH5[0][0] and unit == units[0] and mem:
+            # (in-memory loading converts to double precision; a table streamed from the file is interpolated in the file's
+            # own precision, and nothing more is demanded of it)
+            for pat_ in ('generic', 'wide'):
+                cases.append({'container': 'kh5', 'shape': list(sh), 'nW': 4, 'ng': ng, 'pattern': pat_, 'fname': fn,
+                              'tag': tag, 'unit': unit, 'mem': mem, 'mode': mode, 'via': via, 'wn': 'none', 'f32': 1})
     for c_ in list(cases):
         if c_['container'].startswith('k') and c_['shape'] == [3, 3] and c_['mode'] == 'linear' and c_.get('ng') == 2 and \
                 c_.get('unit', 'bar') == 'bar' and c_.get('mem', True) is True and not c_.get('dotdir'):
